@@ -4,6 +4,8 @@ import (
 	"context"
 	"errors"
 	"fmt"
+	"hash/fnv"
+	"sort"
 	"testing"
 	"time"
 
@@ -221,16 +223,112 @@ func drawUnexpected(c *choice.Stream, cf *Conf) ([]byte, string) {
 
 func init() {
 	Register(&Prop{
-		ID: "C04", Engine: "A", Quick: 4000, Thorough: 300000, Level: "exploration",
+		ID: "C04", Engine: "A", Quick: 4000, Thorough: 6000, Level: "exploration",
 		Rule: "each run = one generated query scenario (select or insert, schema, compression, revisions) + one drawn primary fault (cut FIN/RST at byte k, write error at byte k, failing callback j, exception / unknown code / unexpected packet at script position p) + one seeded schedule of all client goroutines and environment actions; distinct = distinct schedule digests; non-trivial = the fault fired and Do returned an error",
 		Run:  runC04,
 	})
 }
 
+// c04Forced pins the scenario and the fault of one run (fault-point
+// enumeration); nil means everything is drawn.
+type c04Forced struct {
+	scSeed uint64
+	fault  string // none cut_fin cut_rst write_err callback_err exception
+	k      int    // byte offset (cut / write_err), script position (exception), invocation (callback_err)
+	cb     string
+}
+
+// c04Info is what a fault-free run of a scenario reveals about its fault space.
+type c04Info struct {
+	serverBytes, clientBytes, scriptLen, qStart int
+	calls                                       map[string]int
+	insert                                      bool
+}
+
 func runC04(t *testing.T, c *choice.Stream, r *Result, opt RunOpt) {
+	if opt.Tier == "thorough" && r.Index%6 == 0 {
+		runC04Enum(t, c, r, opt)
+		return
+	}
+	c04Run(t, c, r, opt, nil)
+}
+
+// runC04Enum: one scenario instance, a fault-free run to measure it, then
+// every fault point of it (all cut positions of the server stream, all write
+// error positions of the client stream, every script position for an
+// exception, every callback invocation), each under its own drawn schedule.
+func runC04Enum(t *testing.T, c *choice.Stream, r *Result, opt RunOpt) {
+	scSeed := uint64(1 + c.Draw("enum.scenario", 1<<31-2))
+	probe := &Result{Prop: r.Prop, Index: r.Index, Seed: r.Seed}
+	info := c04Run(t, c, probe, opt, &c04Forced{scSeed: scSeed, fault: "none"})
+	if probe.Outcome == "harness" || probe.Outcome == "violation" {
+		*r = *probe
+		return
+	}
+	var plan []c04Forced
+	stride := func(n int) int { return max(1, n/400) }
+	for k := 0; k <= info.serverBytes; k += stride(info.serverBytes) {
+		plan = append(plan, c04Forced{scSeed: scSeed, fault: "cut_fin", k: k}, c04Forced{scSeed: scSeed, fault: "cut_rst", k: k})
+	}
+	for k := 0; k <= info.clientBytes; k += stride(info.clientBytes) {
+		plan = append(plan, c04Forced{scSeed: scSeed, fault: "write_err", k: k})
+	}
+	for p := info.qStart + 1; p < info.scriptLen; p++ {
+		plan = append(plan, c04Forced{scSeed: scSeed, fault: "exception", k: p})
+	}
+	for name, n := range info.calls {
+		for j := 1; j <= n; j++ {
+			plan = append(plan, c04Forced{scSeed: scSeed, fault: "callback_err", k: j, cb: name})
+		}
+	}
+	sort.SliceStable(plan, func(i, j int) bool {
+		if plan[i].fault != plan[j].fault {
+			return plan[i].fault < plan[j].fault
+		}
+		if plan[i].cb != plan[j].cb {
+			return plan[i].cb < plan[j].cb
+		}
+		return plan[i].k < plan[j].k
+	})
+	total := &Result{}
+	dg := fnv.New64a()
+	for i := range plan {
+		sub := &Result{Prop: r.Prop, Index: r.Index, Seed: r.Seed}
+		c04Run(t, c, sub, opt, &plan[i])
+		total.Steps += sub.Steps
+		total.Switches += sub.Switches
+		total.SimMs += sub.SimMs
+		fmt.Fprintf(dg, "%s;", sub.Digest)
+		for k, v := range sub.Fired {
+			for j := 0; j < v; j++ {
+				r.Fire(k)
+			}
+		}
+		if sub.Outcome == "violation" || sub.Outcome == "harness" {
+			fired, probes := r.Fired, r.Probes
+			*r = *sub
+			r.Fired, r.Probes = fired, probes
+			r.Detail = fmt.Sprintf("[fault-point enumeration: %s at %d %s] %s", plan[i].fault, plan[i].k, plan[i].cb, r.Detail)
+			return
+		}
+	}
+	r.Steps, r.Switches, r.SimMs = total.Steps, total.Switches, total.SimMs
+	r.Digest = fmt.Sprintf("%016x", dg.Sum64())
+	r.Evals = len(plan) + 1
+	r.NonTriv = true
+	r.Cell = "enumeration"
+	r.Probe("fault_points_enumerated")
+	r.Sample = map[string]any{"family": "fault-point enumeration of one scenario", "scenario": probe.Sample, "server_bytes": info.serverBytes, "client_bytes": info.clientBytes, "fault_points": len(plan)}
+}
+
+func c04Run(t *testing.T, c *choice.Stream, r *Result, opt RunOpt, forced *c04Forced) (info c04Info) {
 	Bubble(t, c, r, opt, func(e *Env) func() {
-		cf := DrawConf(c)
-		sc := drawQueryScenario(c, cf)
+		scs := c
+		if forced != nil {
+			scs = choice.New(forced.scSeed)
+		}
+		cf := DrawConf(scs)
+		sc := drawQueryScenario(scs, cf)
 		e.Sim.DrawStrategy()
 		e.Sim.StallProb = 0 // C04 asserts a time bound: no voluntary stalls
 		e.W.DeliverMode = c.Weighted("deliver", 4, 1, 3)
@@ -242,7 +340,25 @@ func runC04(t *testing.T, c *choice.Stream, r *Result, opt RunOpt) {
 		script := sc.script
 		qStart := sc.afterHandshake
 		var cutK, werrK int
-		switch faultName {
+		info.scriptLen, info.qStart, info.insert = len(script), qStart, sc.kind == "insert"
+		for _, s := range script[qStart:] {
+			info.serverBytes += len(s.Send)
+		}
+		if forced != nil {
+			faultName = forced.fault
+			switch forced.fault {
+			case "cut_fin", "cut_rst":
+				cutK = forced.k
+			case "write_err":
+				werrK = forced.k
+			case "callback_err":
+				sc.rec.FailAt = map[string]int{forced.cb: forced.k}
+			case "exception":
+				ns := append([]simnet.Step{}, script[:forced.k]...)
+				script = append(ns, simnet.Step{Label: "exception", Send: (&SPacket{Kind: "exception", Exc: []refproto.Exception{{Code: 60, Name: "DB::Exception", Message: "DB::Exception: enumerated"}}}).Encode(cf)})
+			}
+		}
+		switch map[bool]string{true: "forced", false: faultName}[forced != nil] {
 		case "cut_fin", "cut_rst":
 			total := 0
 			for _, s := range script[qStart:] {
@@ -304,8 +420,11 @@ func runC04(t *testing.T, c *choice.Stream, r *Result, opt RunOpt) {
 				conn.WriteErrAfter = conn.OutLen() + werrK
 			}
 			t0 := time.Now()
+			before := conn.OutLen()
 			derr := cl.Do(ctx, sc.query)
 			took := time.Since(t0)
+			info.clientBytes = conn.OutLen() - before
+			info.calls = sc.rec.Calls
 			if derr == nil {
 				r.Probe("fault_did_not_fire")
 				return
@@ -318,6 +437,7 @@ func runC04(t *testing.T, c *choice.Stream, r *Result, opt RunOpt) {
 			checkAfterFailure(e, r, cf, cl, conn, srv, faultName, derr)
 		}
 	})
+	return info
 }
 
 func colNames(cs []ColSpec) []string {
